@@ -170,6 +170,24 @@ func getMetadataBucketByID(md *bolt.Bucket, id uint32) (*bolt.Bucket, error) {
 	return b, nil
 }
 
+// clearAttr removes all attributes written by writeAttr from the node bucket.
+func clearAttr(b *bolt.Bucket) error {
+	for _, k := range [][]byte{
+		bucketKeySize, bucketKeyUID, bucketKeyGID, bucketKeyDevMajor, bucketKeyDevMinor, bucketKeyNumLink,
+		bucketKeyModTime, bucketKeyLinkName, bucketKeyMode, bucketKeyXattrKey, bucketKeyXattrValue,
+	} {
+		if err := b.Delete(k); err != nil {
+			return err
+		}
+	}
+	if b.Bucket(bucketKeyXattrsExtra) != nil {
+		if err := b.DeleteBucket(bucketKeyXattrsExtra); err != nil {
+			return err
+		}
+	}
+	return nil
+}
+
 func writeAttr(b *bolt.Bucket, attr *metadata.Attr) error {
 	for _, v := range []struct {
 		key []byte
